@@ -44,6 +44,10 @@ int main(int argc, char** argv)
         const std::string id = scn.at(0).t.at(1);
         g_cur = id;
         std::cout << "S " << id << "\n";
+        std::cout << "C 1";
+        for (auto& tk : scn.at(1).t)
+            std::cout << ' ' << tk;
+        std::cout << "\n";
         std::cout.flush();
         alarm(watchdog);
         try
